@@ -73,7 +73,10 @@ def apply_history(H, W, hist, ctor_kwargs=None):
         block_is_array = hasattr(block, "rows") and hasattr(block, "num_columns")
         block_before = (grid(block), len(block.rows)) if block_is_array else None
         try:
-            if int_index:
+            cell_form = (rh == 1 and rw == 1 and isinstance(block, list) and len(block) == 1 and len(rows_cells[0]) == 1 and step % 2 == 0)
+            if cell_form:
+                a[r0, c0] = block[0]            # a[r, c] = one character (str or FmtStr), the quantifier's second spelling
+            elif int_index:
                 a[r0, c0:c1] = block
             else:
                 a[r0:r1, c0:c1] = block
